@@ -108,4 +108,31 @@ reg(
     thorough={"shards": 16, "timeout_s": 4 * 3600, "n_histories": 30, "max_ops": 14,
               "required_classes": ["C05.step_update", "C05.step_regenerate", "C05.step_mh", "C05.step_mala", "C05.step_hmc", "C05.step_jit", "C05.step_vector"]},
 )
+
+reg(
+    "C12",
+    "A case is (N in 1..64, log-weight vector of a generated class: generic / degenerate (one finite) / partly -inf / "
+    "near-uniform / wide dynamic range / exactly uniform, method, accumulated estimate, key). Particles are a genuine "
+    "vectorized trace whose every leaf encodes its lane. For systematic resampling the random offset is scripted and "
+    "EVERY cell of the partition of (0,1) induced by the breakpoints {N*C_j - i} is probed (midpoint and both edges). "
+    "Non-trivial: N >= 2 and weights not all equal. Distinct = (N, method, weights rounded to 1e-3).",
+    quick={"shards": 16, "timeout_s": 1200, "n_cases": 40, "n_runs": 1500, "stat_every": 8,
+           "required_classes": ["C12.systematic", "C12.categorical", "C12.w_degenerate", "C12.w_partly_neg_inf", "C12.w_near_uniform",
+                                "C12.w_wide_range", "C12.w_generic", "C12.N_1", "C12.N_large", "C12.offset_cells_probed"]},
+    thorough={"shards": 16, "timeout_s": 3 * 3600, "n_cases": 500, "n_runs": 6000, "stat_every": 4,
+              "required_classes": ["C12.systematic", "C12.categorical", "C12.w_degenerate", "C12.w_partly_neg_inf", "C12.N_1"]},
+)
+
+reg(
+    "C20",
+    "HMM cases: K,M in 1..4, T in 1..6, initial/transition/emission rows from a weight strategy with forced zeros (sparse) in a "
+    "third of the cases, observation sequence sampled from the model (positive probability). Linear-Gaussian cases: d_state, "
+    "d_obs in 1..3 (independently, so d_obs != d_state in most), T in 1..6, A and C generated, SPD covariances B B^T + lambda I. "
+    "Oracles: brute force over all K^T state sequences; dense joint Gaussian conditioning in float64. Non-trivial: T >= 2 and "
+    "(sparse or K != M) for HMMs, T >= 2 and d_obs != d_state for LG. Distinct = hash of the case.",
+    quick={"shards": 16, "timeout_s": 1200, "n_cases": 24, "n1": 4000, "stat_every": 3,
+           "required_classes": ["C20.hmm", "C20.lg", "C20.hmm_sparse", "C20.hmm_T1", "C20.lg_nonsquare", "C20.lg_T1", "C20.lg_square"]},
+    thorough={"shards": 16, "timeout_s": 3 * 3600, "n_cases": 300, "n1": 20000, "stat_every": 2,
+              "required_classes": ["C20.hmm", "C20.lg", "C20.hmm_sparse", "C20.hmm_T1", "C20.lg_nonsquare", "C20.lg_T1"]},
+)
 NOT_CLAIMED = {}
